@@ -1,14 +1,16 @@
 import Proofs.Diff
+import Proofs.Filter
 import Model.Diff.Text
 /-!
 # C13 — exclude_paths / exclude_regex_paths / include_paths act as pure filters
 
-Machine-checked here: how the model's skip tests decide (literal exclusion is exact membership of
-the level's path; an excluded child contributes nothing; reported entries are filtered by the same
-test), and the two boundary witnesses.  The theorem that the restricted result equals the filtered
-unrestricted result (positional mode, threshold 0) is stated in DESIGN §5/C13 and not proved yet:
-inside that domain the property is decided on the implementation by the harness, with the model
-compared under the same options.
+Machine-checked here: **`exclude_paths` is a pure filter in positional mode** (`C13_exclude_is_filter`:
+the restricted result is the unrestricted result minus the entries at or below an excluded path, for
+every pair of values, every set of excluded paths, any size and nesting), how the model's skip tests
+decide (literal exclusion is exact membership of the level's path; an excluded child contributes
+nothing; reported entries are filtered by the same test), and the two boundary witnesses.  For
+`exclude_regex_paths`, `include_paths` and the default alignment mode the property is decided on the
+implementation by the harness, with the model compared under the same options.
 -/
 namespace Diff
 open Py
@@ -48,6 +50,52 @@ theorem C13_excluded_child_silent (cfg : DCfg) (al : Align) (hashOf : PyVal → 
     (x y : PyVal) (xs ys : List PyVal) (h : skipSteps cfg (steps ++ [⟨.iter, some (.int i), some (.int i)⟩]) = true) :
     diffPairs cfg al hashOf steps i (x :: xs) (y :: ys) = diffPairs cfg al hashOf steps (i + 1) xs ys := by
   simp only [diffPairs, h, ↓reduceIte, Result.empty_append]
+
+/-- some level on the way from the root to `st` (the root and `st` included) is an excluded path -/
+def blocked (E : List String) (st : List Step) : Bool := hit E [] || blockedFrom E 0 st
+
+/-- **`exclude_paths` is a pure filter (positional mode, threshold 0).**  For every pair of values, every
+list `E` of excluded paths, every alignment oracle and hasher: the entries reported under
+`exclude_paths = E` are exactly the entries of the unrestricted run that are not at or below an
+excluded path — nothing else is dropped, nothing is added, nothing changes. -/
+theorem C13_exclude_is_filter (cfg : DCfg) (hp : Pos cfg) (he0 : cfg.exclude = []) (E : List String) (al : Align)
+    (hashOf : PyVal → String) (a b : PyVal) :
+    keepReported (withExclude cfg E) (if skipSteps (withExclude cfg E) [] then ({} : Result) else diffV (withExclude cfg E) al hashOf [] a b).tree =
+      (diffV cfg al hashOf [] a b).tree.filter (fun e => !blocked E e.2.steps) := by
+  rw [keepReported_hit hp, skipSteps_hit hp]
+  by_cases h0 : hit E [] = true
+  · simp only [h0, if_true, blocked, Bool.true_or, Bool.not_true]
+    simp
+  · have h0' : hit E [] = false := by simpa using h0
+    simp only [h0', Bool.false_eq_true, if_false, blocked, Bool.false_or]
+    exact filt_V hp he0 E al hashOf a b [] h0'
+
+/-- the same for the complete result when add/remove pairs are not merged (`report_repetition=True`;
+in positional mode an added and a removed item never share a path) -/
+theorem C13_exclude_is_filter_deepDiff (cfg : DCfg) (hp : Pos cfg) (he0 : cfg.exclude = []) (hr : cfg.reportRepetition = true)
+    (E : List String) (al : Align) (hashOf : PyVal → String) (a b : PyVal) :
+    (deepDiff (withExclude cfg E) al hashOf a b).tree = (deepDiff cfg al hashOf a b).tree.filter (fun e => !blocked E e.2.steps) := by
+  have hr' : (withExclude cfg E).reportRepetition = true := hr
+  have hk : keepReported cfg (diffV cfg al hashOf [] a b).tree = (diffV cfg al hashOf [] a b).tree := by
+    unfold keepReported
+    rw [List.filter_eq_self]
+    intro e _
+    simp [skipSteps_none hp he0]
+  unfold deepDiff
+  simp only [hr, hr', if_true, skipSteps_none hp he0, Bool.false_eq_true, if_false, hk]
+  exact C13_exclude_is_filter cfg hp he0 E al hashOf a b
+
+/-- content under an excluded path never shows: every entry of the restricted result avoids `E` on its whole path -/
+theorem C13_nothing_below_excluded (cfg : DCfg) (hp : Pos cfg) (he0 : cfg.exclude = []) (E : List String) (al : Align)
+    (hashOf : PyVal → String) (a b : PyVal) :
+    ∀ e ∈ keepReported (withExclude cfg E) (if skipSteps (withExclude cfg E) [] then ({} : Result) else diffV (withExclude cfg E) al hashOf [] a b).tree,
+      blocked E e.2.steps = false := by
+  intro e he
+  rw [C13_exclude_is_filter cfg hp he0 E al hashOf a b] at he
+  simpa using (List.mem_filter.1 he).2
+
+/-! Non-vacuity: a positional configuration. -/
+example : Pos { zip := true, thrNum := 0 } := ⟨rfl, rfl, rfl, rfl⟩
 
 /-- **Negative witness (finding F10a / F10c).** `_skip_this_key` renders every key as `['key']`: for
 the int key `1` of the root dict it tests `root['1']`, so with `include_paths=['root[1]']` the key is
